@@ -43,8 +43,9 @@ def main(tier, seed):
             synrun.validate_samples(chk, res, oracle, sp, 'raw ctx %s/%d' % (name, si), raw=True)
     synrun.deep_suite(chk, oracle, sp, jobs, props, B['deep'][0], B['deep'][1])
     synrun.lexer_suite(chk, oracle, sp, jobs, props, B['lex'], B['pipeline'])
+    synrun.flat_runs(chk, oracle, props)
     oracle.close()
-    chk.assumptions += synrun.SYN_ASSUMPTIONS + ['texts with more raw tokens than the bound, and tokens longer than the lexer bound, are outside the claim']
+    chk.assumptions += synrun.SYN_ASSUMPTIONS + ['texts with more raw tokens than the bound, and tokens longer than the lexer bound, are outside the claim - except along 13 families of flat repetition pumped to lengths around 2^7, 2^8, 2^15 and 2^16 and parsed natively (executed code, not a solver verdict): counters and buffers that saturate or wrap there']
     chk.trusted += synrun.SYN_TRUSTED
     syn.W.cleanup()
     return chk.finish({'unrealisable_counterexamples': chk.extra.get('unrealisable', 0)})
@@ -68,6 +69,12 @@ def replay(path):
     d = json.load(open(path))
     syn.load('dev', log=lambda m: None)
     oracle = native.Oracle(syn.ORACLE_BIN)
-    nv = synrun.native_verdict(oracle, d['cex']['text'])
-    print(json.dumps({'input': d['cex']['text'], 'native_verdict': nv}, indent=1))
+    c = d['cex']
+    if c.get('kind') == 'flat-run':
+        text = c['prefix'] + c['sep'].join([c['unit']] * c['count']) + c['suffix']
+        r = oracle.ask('roundtrip', text)
+        print(json.dumps({'family': c['family'], 'count': c['count'], 'bytes': len(text), 'native': r}, indent=1))
+        return 0 if (isinstance(r, dict) and r.get('text_ok') is True and r.get('contiguous') is True) else 1
+    nv = synrun.native_verdict(oracle, c['text'])
+    print(json.dumps({'input': c['text'], 'native_verdict': nv}, indent=1))
     return 1 if nv else 0
